@@ -669,6 +669,11 @@ def run(prog, ctx):
                 for (ff, b, kind, place, rv, span, adt, fld) in sym.field_stores(prog, field=flag, fns=[g]):
                     if kind == "assign" and rv is not None and sg.rvalue(rv) in (("const", False), ("const", 0)):
                         clear.add(b)
+                # a helper that stores the flag counts as well
+                for b_, site_ in g.calls():
+                    tgt_ = site_.get("callee")
+                    if tgt_ in prog.fns and tgt_ != g.id and any(True for h_ in C.reach_from(prog, [tgt_]) for _ in sym.field_stores(prog, field=flag, fns=[h_])):
+                        clear.add(b_)
                 for b in hb:
                     res.obligations += 1
                     n_e += 1
